@@ -653,7 +653,7 @@ impl LedgerOracle {
                             && s.dest == _world.cfg.outstation_addr
                     })
                     .unwrap_or(false);
-                if is_read_from_master && step.op_index + 1 == self.script_len {
+                if is_read_from_master && step.op_index == self.script_len {
                     self.bump("probe.closing_poll_sent");
                     if step.received.is_empty() {
                         self.bump("probe.closing_poll_got_nothing");
@@ -664,7 +664,7 @@ impl LedgerOracle {
                         Some(f) => f,
                         None => continue, // C12 judges undecodable fragments
                     };
-                    if is_read_from_master && step.op_index + 1 == self.script_len && frag.func == refapp::FUNC_RESPONSE {
+                    if is_read_from_master && step.op_index == self.script_len && frag.func == refapp::FUNC_RESPONSE {
                         self.bump(if frag.ctrl.fir && frag.ctrl.fin { "probe.closing_poll_answered_in_one_fragment" } else { "probe.closing_poll_answered_in_several_fragments" });
                     }
                     if frag.func != refapp::FUNC_RESPONSE
@@ -951,7 +951,7 @@ impl LedgerOracle {
                                 }
                                 if modelled {
                                     self.bump("probe.complete_event_read_judged");
-                                    if matches!(step.op, Op::Request { .. }) && step.op_index + 1 == self.script_len {
+                                    if matches!(step.op, Op::Request { .. }) && step.op_index == self.script_len {
                                         self.bump("probe.closing_poll_judged");
                                     }
                                     let missing: Vec<u64> = taken
